@@ -36,6 +36,11 @@ type Opts struct {
 	// RuntimeVRFs: create the VRFs with Server.AddNetworkInstance after New
 	// instead of server.WithVRFs.
 	RuntimeVRFs bool
+	// Elec overrides the election id of the session (default (0,1)).
+	Elec *gen.ID128
+	// OnFlush, when set, performs the flush of a Flush step itself (C08) and
+	// returns the network instances that were emptied.
+	OnFlush func(s *drive.Srv, m *model.RIB, step int, st hgen.Step, observe func(when string) bool, v *ev.Verdict) (flushed []string, ok bool)
 	// AfterBatch is called at every observation point.
 	AfterBatch func(s *drive.Srv, m *model.RIB, v *ev.Verdict, when string)
 }
@@ -125,6 +130,10 @@ func RunHistory(h hgen.History, o Opts) (*ev.Verdict, *l1.Trace) {
 	}
 	byID := map[uint64]sent{}
 
+	elec := Elec
+	if o.Elec != nil {
+		elec = *o.Elec
+	}
 	x := s.Open()
 	defer func() {
 		if hg := x.Close(); hg != nil && len(v.Findings) == 0 {
@@ -135,7 +144,7 @@ func RunHistory(h hgen.History, o Opts) (*ev.Verdict, *l1.Trace) {
 		HangFinding(v, P, hg)
 		return v, tr
 	}
-	if _, hg := x.Send(&spb.ModifyRequest{ElectionId: Elec.Proto()}); hg != nil {
+	if _, hg := x.Send(&spb.ModifyRequest{ElectionId: elec.Proto()}); hg != nil {
 		HangFinding(v, P, hg)
 		return v, tr
 	}
@@ -174,21 +183,30 @@ func RunHistory(h hgen.History, o Opts) (*ev.Verdict, *l1.Trace) {
 		if st.Op == nil {
 			i++
 			tr.Flushes++
-			req := &spb.FlushRequest{Election: &spb.FlushRequest_Id{Id: Elec.Proto()}}
-			if len(st.Flush) == 1 {
-				req.NetworkInstance = &spb.FlushRequest_Name{Name: st.Flush[0]}
-				tr.PartialFlushes++
+			var nis []string
+			if o.OnFlush != nil {
+				var ok bool
+				nis, ok = o.OnFlush(s, m, i-1, st, observe, v)
+				if !ok {
+					return v, tr
+				}
 			} else {
-				req.NetworkInstance = &spb.FlushRequest_All{All: &spb.Empty{}}
-			}
-			_, _, hg := s.Flush(req) // the status of Flush is C08's subject
-			if hg != nil {
-				HangFinding(v, P, hg)
-				return v, tr
-			}
-			nis := st.Flush
-			if len(nis) != 1 {
-				nis = hgen.NIs
+				req := &spb.FlushRequest{Election: &spb.FlushRequest_Id{Id: elec.Proto()}}
+				if len(st.Flush) == 1 {
+					req.NetworkInstance = &spb.FlushRequest_Name{Name: st.Flush[0]}
+					tr.PartialFlushes++
+				} else {
+					req.NetworkInstance = &spb.FlushRequest_All{All: &spb.Empty{}}
+				}
+				_, _, hg := s.Flush(req) // the status of Flush is C08's subject
+				if hg != nil {
+					HangFinding(v, P, hg)
+					return v, tr
+				}
+				nis = st.Flush
+				if len(nis) != 1 {
+					nis = hgen.NIs
+				}
 			}
 			m.Flush(nis)
 			set := map[string]bool{}
@@ -224,7 +242,7 @@ func RunHistory(h hgen.History, o Opts) (*ev.Verdict, *l1.Trace) {
 		for j, op := range ops {
 			opIdx++
 			p := op.Proto()
-			p.ElectionId = Elec.Proto()
+			p.ElectionId = elec.Proto()
 			if o.Fatal == opIdx {
 				fatalAt = j
 				switch o.FatalKind {
